@@ -51,3 +51,6 @@ CFG = dict(
 )
 
 CFG["level_extra"] = ("NOTE: the whole-run completeness theorem assumes files that follow one another without a gap (the binaries' own `missing file` refusal, not listed by the property).")
+
+# a run with fewer cases than half of what the quick tier generates today would be a (partly) vacuous differential
+CFG["min_cases"] = 147
